@@ -5,6 +5,7 @@ import (
 	"sync"
 
 	"verif/mc/core"
+	"verif/mc/dyn"
 )
 
 // sweepx: exhaustive sweeps of a value domain through the real batch API.
@@ -143,26 +144,40 @@ type shardResult struct {
 	firstOut    int64
 	lastIn      int64
 	lastOut     int64
+	lastIdx     int
+	lastN       int
 	evaluations int64
 }
 
 // runSeq drives one ascending sequence through eval on all cores.  eval converts a block
 // of inputs to outputs (order keys); point is called for every (in, out); order violations
 // are reported through orderFail(prevIn, prevOut, in, out).
-func runSeq(c *core.Ctx, gen seqGen, nshards int, newEval func() func(in, out []int64),
-	point func(in, out int64), orderFail func(pi, po, in, out int64)) int64 {
-	return runSeqStrict(c, gen, nshards, false, newEval, point, orderFail)
+func runSeq(c *core.Ctx, gen seqGen, nshards int, chans []int, newEval func(ch int) func(in, out []int64),
+	point func(p sweepPos, in, out int64), orderFail func(p sweepPos, pi, po, in, out int64)) int64 {
+	return runSeqStrict(c, gen, nshards, chans, false, newEval, point, orderFail)
 }
 
-// runSeqStrict: with strict, equal consecutive outputs are order failures too.
-func runSeqStrict(c *core.Ctx, gen seqGen, nshards int, strict bool, newEval func() func(in, out []int64),
-	point func(in, out int64), orderFail func(pi, po, in, out int64)) int64 {
+// sweepPos says where in a block a value was converted, and with how many channels.
+type sweepPos struct {
+	Ch      int // channel count of the buffers of this shard
+	Idx     int // interleaved position inside the block
+	PrevIdx int // order failures: position of the previous value inside its block
+	N       int // number of values in the block
+	PrevN   int // ... in the previous value's block
+	PrevCh  int // channel count the previous value went through (differs across shard borders)
+}
+
+// runSeqStrict: with strict, equal consecutive outputs are order failures too.  Shard k
+// converts through buffers with chans[k % len(chans)] channels.
+func runSeqStrict(c *core.Ctx, gen seqGen, nshards int, chans []int, strict bool, newEval func(ch int) func(in, out []int64),
+	point func(p sweepPos, in, out int64), orderFail func(p sweepPos, pi, po, in, out int64)) int64 {
 	res := make([]shardResult, nshards)
 	var mu sync.Mutex
 	_ = mu
 	c.ParallelFor(nshards, func(sh int) {
 		next := gen(sh, nshards)
-		eval := newEval()
+		ch := chans[sh%len(chans)]
+		eval := newEval(ch)
 		in := make([]int64, blockN)
 		out := make([]int64, blockN)
 		r := &res[sh]
@@ -173,15 +188,15 @@ func runSeqStrict(c *core.Ctx, gen seqGen, nshards int, strict bool, newEval fun
 			}
 			eval(in[:n], out[:n])
 			for i := 0; i < n; i++ {
-				point(in[i], out[i])
+				point(sweepPos{ch, i, 0, n, 0, ch}, in[i], out[i])
 				if r.any {
 					if out[i] < r.lastOut || (strict && out[i] == r.lastOut) {
-						orderFail(r.lastIn, r.lastOut, in[i], out[i])
+						orderFail(sweepPos{ch, i, r.lastIdx, n, r.lastN, ch}, r.lastIn, r.lastOut, in[i], out[i])
 					}
 				} else {
 					r.any, r.firstIn, r.firstOut = true, in[i], out[i]
 				}
-				r.lastIn, r.lastOut = in[i], out[i]
+				r.lastIn, r.lastOut, r.lastIdx, r.lastN = in[i], out[i], i, n
 			}
 			r.evaluations += int64(n)
 			if c.Expired() {
@@ -191,6 +206,7 @@ func runSeqStrict(c *core.Ctx, gen seqGen, nshards int, strict bool, newEval fun
 	})
 	var total int64
 	var prev *shardResult
+	prevShard := 0
 	for i := range res {
 		r := &res[i]
 		total += r.evaluations
@@ -198,11 +214,21 @@ func runSeqStrict(c *core.Ctx, gen seqGen, nshards int, strict bool, newEval fun
 			continue
 		}
 		if prev != nil && (r.firstOut < prev.lastOut || (strict && r.firstOut == prev.lastOut)) {
-			orderFail(prev.lastIn, prev.lastOut, r.firstIn, r.firstOut)
+			// (values of neighbouring shards may have gone through different channel counts; the isolated
+			// re-evaluation uses the later shard's)
+			orderFail(sweepPos{chans[i%len(chans)], 0, prev.lastIdx, 1, prev.lastN, chans[prevShard%len(chans)]}, prev.lastIn, prev.lastOut, r.firstIn, r.firstOut)
 		}
 		prev = r
+		prevShard = i
 	}
 	return total
+}
+
+func posOf(p sweepPos, pair bool) (chs, pos, lens []int) {
+	if pair {
+		return []int{p.PrevCh, p.Ch}, []int{p.PrevIdx, p.Idx}, []int{p.PrevN, p.N}
+	}
+	return []int{p.Ch}, []int{p.Idx}, []int{p.N}
 }
 
 // failCap limits how many failures of one kind a sweep re-evaluates and records (the
@@ -220,4 +246,46 @@ func (f *failCap) ok(kind string) bool {
 	defer f.mu.Unlock()
 	f.n[kind]++
 	return f.n[kind] <= f.max
+}
+
+// evalAt converts each value on its own, at the interleaved position it had in the sweep,
+// in a block of the length it had there (all other positions hold copies of the value), and returns the raw results (and, when
+// back is set, the raw results of converting those back).
+func evalAt(s, d int, vals []uint64, pos, lens, chs []int, roundtrip bool) (out, back []uint64) {
+	out = make([]uint64, len(vals))
+	back = make([]uint64, len(vals))
+	for i, v := range vals {
+		ch := 1
+		if i < len(chs) {
+			ch = chOr1(chs[i])
+		}
+		p := 0
+		if i < len(pos) {
+			p = pos[i]
+		}
+		n := p + 1
+		if i < len(lens) && lens[i] > n {
+			n = lens[i]
+		}
+		in := make([]uint64, n)
+		for k := range in {
+			in[k] = v
+		}
+		res := make([]uint64, n)
+		dyn.ConvBlockCh(s, d, n, ch)(in, res)
+		out[i] = res[p]
+		if roundtrip {
+			res2 := make([]uint64, n)
+			dyn.ConvBlockCh(d, s, n, ch)(res, res2)
+			back[i] = res2[p]
+		}
+	}
+	return
+}
+
+func chOr1(ch int) int {
+	if ch < 1 {
+		return 1
+	}
+	return ch
 }
